@@ -62,6 +62,9 @@ type CheckSpec struct {
 	Stubs       []string      `json:"stubs"`
 	Outside     []string      `json:"outside_claim"`
 	Bounds      string        `json:"bounds"`
+	// Parts lets one property be checked by harnesses living in several packages:
+	// each part has its own package, overlays and entries.
+	Parts []*CheckSpec `json:"parts"`
 }
 
 type Program struct {
